@@ -419,7 +419,11 @@ def decide(prop, tier, seed, a, rundir, woven, t0):
             kf.append((f, k))
         else:
             viol.append(f)
+    seen_kf = set()
     for f, k in kf:
+        if k.get("id") in seen_kf:
+            continue
+        seen_kf.add(k.get("id"))
         print("KNOWN-FINDING: property=%s %s" % (prop, k.get("what", f["message"])))
     write_evidence(prop, tier, seed, info, meta, my_units, my_clauses, fres, my_fail, trusted, cmd, time.time() - t0, out,
                    known=[k for _, k in kf], other=other_fail)
